@@ -377,6 +377,105 @@ def lex(b):
 
 
 # ----------------------------------------------------------------------------
+# the EXTRACTED Model.Labels.location / sarif_region against the real code
+# ----------------------------------------------------------------------------
+
+CS_ALPHABET = ["a", "b", " ", "\t", "\r", "\n", "\n", "\r\n", "\u00e9", "\u2208", "\U0001f5fb", "\ufeff", "\u2028", "\u0085",
+               "/", "*", "\u00a0", "x"]
+CS_FIXED = ["", "\n", "\r\n", "\n\n\n", "a", "a\n", "a\nb", "\r", "\r\r\n", "\u00e9", "\u00e9\n", "\n\u00e9", "\ufeffa\r\n\tb\r\n",
+            "\n\n\U0001f5fb\u2208\U0001f30f\n\n", "foo\nbar\r\n\nbaz", "\u2028\n\u2028", "/*\u00e9*/ a\r\n// \u2208\r\nb", "\U0001f5fb"]
+
+
+def utf8_boundaries(text):
+    out, pos = [0], 0
+    for ch in text:
+        pos += len(ch.encode())
+        out.append(pos)
+    return out
+
+
+def codespan_cases(ctx, quick, samples):
+    """-> list of (kind, line, text) where line is the wire format shared by both drivers."""
+    rng = ctx.rng
+    texts = list(CS_FIXED)
+    # exhaustive small: every text of at most 5 scalars over {a, LF, CR, e-acute}
+    import itertools
+    small = ["a", "\n", "\r", "\u00e9"]
+    for n in range(1, 6 if quick else 7):
+        for t in itertools.product(small, repeat=n):
+            texts.append("".join(t))
+    n_exh = len(texts)
+    for _ in range(500 if quick else 4000):
+        k = rng.choice([1, 2, 3, 5, 8, 13, 21, 34, 45])
+        texts.append("".join(rng.choice(CS_ALPHABET) for _ in range(rng.randrange(k + 1))))
+    # windows of generated project files (what the tool is really asked about)
+    for src in samples:
+        t = src.decode("utf-8", "replace") if isinstance(src, bytes) else src
+        for _ in range(3):
+            if len(t) > 2:
+                a = rng.randrange(len(t))
+                texts.append(t[a:a + rng.randrange(1, 70)])
+    cases = []
+    for t in texts:
+        scal = " ".join(str(ord(c)) for c in t)
+        nbytes = len(t.encode())
+        cases.append(("loc", ("loc %d %s" % (nbytes + 2, scal)).strip(), t))
+        bs = utf8_boundaries(t)
+        pairs = {(0, nbytes), (nbytes, nbytes), (0, 0)}
+        for _ in range(3):
+            a, b = sorted((rng.choice(bs), rng.choice(bs)))
+            pairs.add((a, b))
+        for a, b in sorted(pairs):
+            cases.append(("region", ("region %d %d %s" % (a, b, scal)).strip(), t))
+    return cases, n_exh
+
+
+def codespan_correspondence(ctx, harness, quick, samples, stats):
+    """Runs the extracted mirror of codespan's `location` and of the SARIF region on the same texts as the real
+    FileLibrary / sarif_conversion.rs / terminal renderer.  -> (disagreements model vs impl, failures impl vs the
+    usual notion computed from the bytes)"""
+    model = common.build_model("locations")
+    cases, n_exh = codespan_cases(ctx, quick, samples)
+    lines = [c[1] for c in cases]
+    got_model = common.run_lines(model, [], lines, shards=common.NPROC)
+    got_impl = common.run_lines(harness, ["codespan"], lines, shards=common.NPROC)
+    disagreements, failures = [], []
+    if len(got_model) != len(lines) or len(got_impl) != len(lines):
+        disagreements.append({"case": "-", "model": "%d lines" % len(got_model), "impl": "%d lines" % len(got_impl),
+                              "why": "a driver did not answer every case (%d)" % len(lines)})
+        return disagreements, failures
+    for (kind, line, text), m, i in zip(cases, got_model, got_impl):
+        stats["codespan_cases"] += 1
+        if m != i:
+            disagreements.append({"case": line, "model": m.split(" = ")[-1], "impl": i.split(" = ")[-1],
+                                  "text": text, "why": "extracted Model.Labels.%s differs from the real code" %
+                                  ("location" if kind == "loc" else "sarif_region / location of the label start")})
+        b = text.encode()
+        ans = i.split(" = ")[-1]
+        if kind == "loc":
+            vals = ans.split()
+            stats["codespan_offsets_compared"] += len(vals)
+            for off in utf8_boundaries(text):
+                want = "%d:%d" % line_col(b, off)
+                stats["codespan_offsets_vs_usual_notion"] += 1
+                if off >= len(vals) or vals[off] != want:
+                    failures.append({"case": line, "text": text, "offset": off, "impl": vals[off] if off < len(vals) else None,
+                                     "spec": want, "why": "codespan's location of byte offset %d is not line:column of the original text" % off})
+                    break
+        else:
+            _, a, e = line.split()[:3]
+            a, e = int(a), int(e)
+            want = "%d %d %d %d | %d %d" % (line_col(b, a) + line_col(b, e) + line_col(b, a))
+            stats["codespan_regions_compared"] += 1
+            if ans != want:
+                failures.append({"case": line, "text": text, "range": [a, e], "impl": ans, "spec": want,
+                                 "why": "SARIF region / terminal header of a label %d..%d are not the line:column of its ends" % (a, e)})
+    stats["codespan_texts"] = len(cases) and len({c[2] for c in cases})
+    stats["codespan_exhaustive_small_texts"] = n_exh
+    return disagreements, failures
+
+
+# ----------------------------------------------------------------------------
 # per-code predicates: is the text under the primary label the construct the message is about?
 # ----------------------------------------------------------------------------
 
@@ -924,6 +1023,20 @@ def run(ctx, proofs):
         shutil.rmtree(root, ignore_errors=True)
         os.makedirs(root, exist_ok=True)
 
+    # the extracted line/column model against the real location code (FileLibrary, sarif_conversion.rs, renderer)
+    cs_samples = [c["files"].get("main.circom", b"") for c in corpus[:6]] + ([sample["files"]["main.circom"]] if sample else [])
+    cs_dis, cs_fail = codespan_correspondence(ctx, harness, quick, cs_samples, stats)
+    for x in cs_fail[:3]:
+        ctx.violation("C04 fails on a bare text (line/column): %s" % x["why"],
+                      {"input": {"codespan_case": x["case"], "text": x["text"]}, "impl": x["impl"], "spec": x["spec"]})
+    if cs_dis and not cs_fail:
+        x = cs_dis[0]
+        ctx.violation("correspondence broken: %s on `%s`: model %s, real code %s" % (x["why"], x["case"][:120], x["model"][:80], x["impl"][:80]),
+                      {"broken": "correspondence Model.Labels.location / sarif_region (extracted) vs codespan as called by "
+                                 "FileLibrary, sarif_conversion.rs and the terminal renderer",
+                       "input": {"codespan_case": x["case"], "text": x.get("text")}, "model": x["model"], "impl": x["impl"],
+                       "disagreements": len(cs_dis)}, no_input=True)
+
     listed = {k["id"] for k in ctx.known}
     shown = 0
     by_clause = collections.Counter()
@@ -985,6 +1098,18 @@ def run(ctx, proofs):
                        "rejects U+FEFF and U+200B with `Invalid token found.` at their first byte and skips the Unicode White_Space ones",
         "panics_in_process": stats["panics_in_process"],
         "failing_projects": len(failing),
+        "codespan_model_vs_real": {
+            "cases": stats["codespan_cases"], "distinct_texts": stats["codespan_texts"],
+            "exhaustive_small_texts": stats["codespan_exhaustive_small_texts"],
+            "offsets_compared_model_vs_real": stats["codespan_offsets_compared"],
+            "boundary_offsets_vs_usual_notion": stats["codespan_offsets_vs_usual_notion"],
+            "regions_and_headers_compared": stats["codespan_regions_compared"],
+            "disagreements": len(cs_dis), "failures": len(cs_fail),
+            "note": "extracted Model.Labels.location on EVERY byte offset 0..len+2 of each text (also inside multi-byte "
+                    "characters and past the end) vs FileLibrary::to_storage().location; extracted sarif_region vs the region "
+                    "ReportLabel::to_sarif writes and the header codespan's renderer prints; texts: every text of <= 5 (thorough 6) "
+                    "scalars over {a, LF, CR, e-acute}, fixed edge cases (empty, only newlines, no final newline, empty last "
+                    "line, lone CR, BOM, U+2028, 4-byte scalars), random texts over 18 scalars, windows of generated files"},
         "failures_by_clause": dict(by_clause),
         "open_statements": ["meta provenance through IR lifting and SSA (lift_metas_from_ast, ssa_metas) is the explicit second "
                             "hypothesis of C04_labels_wellformed_end_to_end; the desugarer's part (desugar_metas_from_input) is "
@@ -1016,6 +1141,31 @@ def replay(ctx, rep):
     if not inp:
         print("replay names a broken obligation, not an input:", rep.get("broken"))
         return 1
+    if inp.get("codespan_case"):
+        model = common.build_model("locations")
+        line = inp["codespan_case"]
+        m = common.run_lines(model, [], [line], shards=1)[0]
+        i = common.run_lines(harness, ["codespan"], [line], shards=1)[0]
+        print("text : %r" % inp.get("text"))
+        print("model: %s" % m)
+        print("real : %s" % i)
+        text = inp.get("text") or ""
+        b = text.encode()
+        ok = m == i
+        if line.startswith("loc"):
+            vals = i.split(" = ")[-1].split()
+            for off in utf8_boundaries(text):
+                if vals[off] != "%d:%d" % line_col(b, off):
+                    print("FAILS at offset %d: real %s, usual notion %d:%d" % ((off, vals[off]) + line_col(b, off)))
+                    ok = False
+        else:
+            a, e = [int(x) for x in line.split()[1:3]]
+            want = "%d %d %d %d | %d %d" % (line_col(b, a) + line_col(b, e) + line_col(b, a))
+            if i.split(" = ")[-1] != want:
+                print("FAILS: real %s, usual notion %s" % (i.split(" = ")[-1], want))
+                ok = False
+        print("agree" if ok else "DISAGREE")
+        return 0 if ok else 1
     p = dict(inp)
     p["idx"] = 0
     p["files"] = {k: v.encode("utf-8", "surrogateescape") for k, v in inp["files"].items()}
